@@ -312,3 +312,50 @@ func CheckSchema(idx *updog.Index, d *model.Data) error {
 	}
 	return nil
 }
+
+// SameExpr compares two expression trees by their caller-visible (exported)
+// structure only: node kinds, columns, values, operand lists.  Unexported
+// fields (an implementation may memoise things inside a node) do not count.
+func SameExpr(a, b updog.Expression) bool {
+	switch x := a.(type) {
+	case *updog.ExprEqual:
+		y, ok := b.(*updog.ExprEqual)
+		return ok && (x == nil) == (y == nil) && (x == nil || (x.Column == y.Column && x.Value == y.Value))
+	case *updog.ExprNot:
+		y, ok := b.(*updog.ExprNot)
+		return ok && (x == nil) == (y == nil) && (x == nil || SameExpr(x.Expr, y.Expr))
+	case *updog.ExprAnd:
+		y, ok := b.(*updog.ExprAnd)
+		if !ok || (x == nil) != (y == nil) {
+			return false
+		}
+		if x == nil {
+			return true
+		}
+		return sameList(x.Exprs, y.Exprs)
+	case *updog.ExprOr:
+		y, ok := b.(*updog.ExprOr)
+		if !ok || (x == nil) != (y == nil) {
+			return false
+		}
+		if x == nil {
+			return true
+		}
+		return sameList(x.Exprs, y.Exprs)
+	case nil:
+		return b == nil
+	}
+	return false
+}
+
+func sameList(a, b []updog.Expression) bool {
+	if len(a) != len(b) {
+		return false
+	}
+	for i := range a {
+		if !SameExpr(a[i], b[i]) {
+			return false
+		}
+	}
+	return true
+}
